@@ -12,19 +12,19 @@ variable {L M N σ ε : Type}
 
 /-! ### Forall2 -/
 
-theorem Forall2.length {R : L → M → Prop} {as : List L} {bs : List M} (h : Forall2 R as bs) :
+theorem forall2_length {R : L → M → Prop} {as : List L} {bs : List M} (h : Forall2 R as bs) :
     as.length = bs.length := by
   induction h with
   | nil => rfl
   | cons _ _ ih => simp [ih]
 
-theorem Forall2.imp {R S : L → M → Prop} (hrs : ∀ a b, R a b → S a b) {as : List L} {bs : List M}
+theorem forall2_imp {R S : L → M → Prop} (hrs : ∀ a b, R a b → S a b) {as : List L} {bs : List M}
     (h : Forall2 R as bs) : Forall2 S as bs := by
   induction h with
   | nil => exact .nil
   | cons h _ ih => exact .cons (hrs _ _ h) ih
 
-theorem Forall2.imp_mem {R S : L → M → Prop} {as : List L} {bs : List M}
+theorem forall2_imp_mem {R S : L → M → Prop} {as : List L} {bs : List M}
     (h : Forall2 R as bs) (hrs : ∀ a b, a ∈ as → b ∈ bs → R a b → S a b) : Forall2 S as bs := by
   induction h with
   | nil => exact .nil
@@ -33,13 +33,13 @@ theorem Forall2.imp_mem {R S : L → M → Prop} {as : List L} {bs : List M}
     intro a b ha hb
     exact hrs a b (List.mem_cons_of_mem _ ha) (List.mem_cons_of_mem _ hb)
 
-theorem Forall2.append {R : L → M → Prop} {as as' : List L} {bs bs' : List M}
+theorem forall2_append {R : L → M → Prop} {as as' : List L} {bs bs' : List M}
     (h : Forall2 R as bs) (h' : Forall2 R as' bs') : Forall2 R (as ++ as') (bs ++ bs') := by
   induction h with
   | nil => simpa using h'
   | cons h _ ih => exact .cons h ih
 
-theorem Forall2.comp {R : L → M → Prop} {S : M → N → Prop} {T : L → N → Prop}
+theorem forall2_comp {R : L → M → Prop} {S : M → N → Prop} {T : L → N → Prop}
     (hc : ∀ a b c, R a b → S b c → T a c) {as : List L} {bs : List M} {cs : List N}
     (h : Forall2 R as bs) (h' : Forall2 S bs cs) : Forall2 T as cs := by
   induction h generalizing cs with
@@ -48,7 +48,7 @@ theorem Forall2.comp {R : L → M → Prop} {S : M → N → Prop} {T : L → N 
     cases h' with
     | cons h1 h2 => exact .cons (hc _ _ _ h h1) (ih h2)
 
-theorem Forall2.get {R : L → M → Prop} {as : List L} {bs : List M} (h : Forall2 R as bs)
+theorem forall2_get {R : L → M → Prop} {as : List L} {bs : List M} (h : Forall2 R as bs)
     {a : L} (ha : a ∈ as) : ∃ b, b ∈ bs ∧ R a b := by
   induction h with
   | nil => simp at ha
@@ -58,7 +58,7 @@ theorem Forall2.get {R : L → M → Prop} {as : List L} {bs : List M} (h : Fora
     · obtain ⟨b, hb, hr⟩ := ih ha
       exact ⟨b, List.mem_cons_of_mem _ hb, hr⟩
 
-theorem Forall2.get_right {R : L → M → Prop} {as : List L} {bs : List M} (h : Forall2 R as bs)
+theorem forall2_get_right {R : L → M → Prop} {as : List L} {bs : List M} (h : Forall2 R as bs)
     {b : M} (hb : b ∈ bs) : ∃ a, a ∈ as ∧ R a b := by
   induction h with
   | nil => simp at hb
@@ -87,7 +87,7 @@ theorem mapS_cons_ok {f : σ → L → Except ε (M × σ)} {s s' : σ} {l : L} 
       obtain ⟨ms', s2⟩ := q
       simp only [hr, Except.ok.injEq, Prod.mk.injEq] at h
       obtain ⟨rfl, rfl⟩ := h
-      exact ⟨m, s1, ms', rfl, rfl, rfl⟩
+      exact ⟨m, s1, ms', rfl, hr, rfl⟩
 
 theorem mapS_append_ok {f : σ → L → Except ε (M × σ)} {a b : List L} {s s' : σ} {ms : List M}
     (h : mapS f s (a ++ b) = .ok (ms, s')) :
@@ -271,12 +271,12 @@ theorem traverse_rel {f : σ → L → Except ε (M × σ)} (Inv : σ → Prop) 
   exact ⟨i, e, traverse_skel f t s t' s' h, r⟩
 
 theorem Rel.imp {R S : L → M → Prop} (hrs : ∀ a b, R a b → S a b) {t : Tree L} {t' : Tree M}
-    (h : Tree.Rel R t t') : Tree.Rel S t t' := ⟨h.1, h.2.imp hrs⟩
+    (h : Tree.Rel R t t') : Tree.Rel S t t' := ⟨h.1, forall2_imp hrs h.2⟩
 
 theorem Rel.comp {R : L → M → Prop} {S : M → N → Prop} {T : L → N → Prop}
     (hc : ∀ a b c, R a b → S b c → T a c) {t : Tree L} {t' : Tree M} {t'' : Tree N}
     (h : Tree.Rel R t t') (h' : Tree.Rel S t' t'') : Tree.Rel T t t'' :=
-  ⟨h.1.trans h'.1, h.2.comp hc h'.2⟩
+  ⟨h.1.trans h'.1, forall2_comp hc h.2 h'.2⟩
 
 theorem Rel.atoms {R : L → M → Prop} {t : Tree L} {t' : Tree M} (h : Tree.Rel R t t') :
     t.atoms = t'.atoms := atoms_eq_of_skel h.1
